@@ -19,15 +19,25 @@ TPipe ==
               \cup Flg(R.r.got > R.burst, "more_bytes_than_deliveries")
               \cup Flg(R.fill # "full" /\ R.r.got # R.burst, "not_one_byte_per_delivery")
               \cup Flg(R.r.removed # 1 \/ R.r.closed # 1, "descriptor_not_closed_on_unregister")
+              \cup Flg(R.r.closes_before # 0, "descriptor_closed_while_registered")
+              \cup Flg(R.r.closes # 1, "descriptor_not_closed_exactly_once")
               \cup Flg(R.r.stray # 0, "written_to_after_close")
               \cup Flg(R.r.tokens # <<"delivered">>, "deliveries_did_not_return")
 
+\* A registration refused at any stage: the descriptor handed over (if it was one) is closed by
+\* exactly one close(), the outcome class is the documented one.
 TPipeReject ==
     /\ l <= Len(Rec) /\ R.e = "pipe_reject" /\ l' = l + 1
     /\ viol' = viol
          \cup Flg(R.status # "exited:0", "probe_died")
          \cup Flg(R.status = "exited:0" /\ R.r.closed # 1, "descriptor_leaked_by_rejected_registration")
-         \cup Flg(R.status = "exited:0" /\ R.what = "forbidden" /\ R.r.class # "panic", "wrong_outcome_class")
+         \cup Flg(R.status = "exited:0" /\ R.r.was_open = 1 /\ R.r.closes # 1,
+                  "descriptor_not_closed_exactly_once_by_rejected_registration")
+         \cup Flg(R.status = "exited:0" /\ R.r.was_open = 0 /\ R.r.closes > 1,
+                  "invalid_descriptor_closed_more_than_once")
+         \cup Flg(R.status = "exited:0" /\ R.r.class = "ok", "registration_not_rejected")
+         \cup Flg(R.status = "exited:0" /\ R.what = "forbidden" /\ R.fdkind # "opath" /\ R.r.class # "panic",
+                  "wrong_outcome_class")
          \cup Flg(R.status = "exited:0" /\ R.what # "forbidden" /\ R.r.class # "err", "wrong_outcome_class")
 
 \* The iterators wake their own self-pipe (backend.rs wake_readers): a blocking UnixStream pair.
